@@ -30,6 +30,17 @@ package configuration
 //@ ghost configapi.Configuration.snapAppliedVal map[string]int
 //@ ghost configapi.Configuration.tracked bool
 
+// Ghost copy of what the last successful Get returned (the state a reconcile step acts on).
+//@ ghost readCfgOK bool
+//@ ghost readCfgIndex int
+//@ ghost readCfgProposed int
+//@ ghost readCfgCommitted int
+//@ ghost readCfgApplied int
+//@ ghost readCfgState int
+//@ ghost readCfgTerm int
+//@ ghost readCfgAppliedTerm int
+//@ ghost readCfgMaster string
+
 // Ghost view of the persisted record (what a crash would leave behind).
 //@ ghost storedCfgCommitted int
 //@ ghost storedCfgApplied int
@@ -49,7 +60,9 @@ package configuration
 //@   probe cfgTerm: result.Status.Mastership.Term
 //@   probe cfgAppliedTerm: result.Status.Applied.Mastership.Term
 //@   probe cfgState: result.Status.State
-//@   modifies storedCfgCommitted, storedCfgApplied
+//@   modifies storedCfgCommitted, storedCfgApplied, readCfgOK, readCfgIndex, readCfgProposed, readCfgCommitted, readCfgApplied, readCfgState, readCfgTerm, readCfgAppliedTerm, readCfgMaster
+//@   ensures readCfgOK == (err == nil)
+//@   ensures err == nil ==> readCfgIndex == result.Index && readCfgProposed == result.Status.Proposed.Index && readCfgCommitted == result.Status.Committed.Index && readCfgApplied == result.Status.Applied.Index && readCfgState == result.Status.State && readCfgTerm == result.Status.Mastership.Term && readCfgAppliedTerm == result.Status.Applied.Mastership.Term && readCfgMaster == result.Status.Mastership.Master
 //@   ensures err != nil ==> result == nil && storedCfgCommitted == old(storedCfgCommitted) && storedCfgApplied == old(storedCfgApplied)
 //@   ensures err == nil ==> result != nil && fresh(result) && cfgSnapshotted(result)
 //@   ensures err == nil ==> (result.Values == nil || fresh(result.Values)) && (result.Status.Applied.Values == nil || fresh(result.Status.Applied.Values)) && (result.Values == nil || result.Values != result.Status.Applied.Values)
